@@ -12,6 +12,7 @@ ONE_SIDED = {
     'originalThreadIndex': 'save-state choice record',
     'targetPath': 'save-state choice record',
     'tags': 'save-state choice record',
+    'isInvisibleDefault': 'save-state choice record',
 }
 ONE_SIDED_CTORS = {
     'Choice::new_from_json': 'choices occur only in save states, which are never read by the streaming loader '
